@@ -11,7 +11,7 @@
    real formulas only and are tied to the code per sample (latcert), the dispatch checkers tie the reported latitudes to their rows through the
    library's own row formula (check_rows) and to each other (check_centre_lat). *)
 From Coq Require Import ZArith Reals String List Floats Lia.
-From SID Require Import Base Str Ids F64 PointF VertexF VxBridge West VertexCheck VertexProofs MercatorR.
+From SID Require Import Base Str Ids Wire F64 PointF VertexF VxBridge West VertexCheck VertexProofs MercatorR DC02.
 Import ListNotations.
 Open Scope Z_scope.
 
@@ -194,6 +194,20 @@ Theorem C02_roundtrip_checker_sound : forall i back, check_roundtrip i back = tr
 Proof. exact check_roundtrip_sound. Qed.
 Print Assumptions C02_roundtrip_checker_sound.
 
+(* histories: the model has no state. In any history of vertex/centre queries (valid or refused, repeated, of the same or of other IDs) the answer to a
+   query is the function [answer] of that query's own arguments — so the harness may judge each step of a sequence of calls exactly like the standalone
+   call, and any dependence of the library's answer on what was asked before is a violation *)
+Theorem C02_model_answers_do_not_depend_on_history : forall m_sinh m_atan pre pre' post post' q,
+  nth_error (run_history m_sinh m_atan (pre ++ q :: post)) (List.length pre) = Some (answer m_sinh m_atan q) /\
+  nth_error (run_history m_sinh m_atan (pre' ++ q :: post')) (List.length pre') = Some (answer m_sinh m_atan q).
+Proof. exact history_independent. Qed.
+Print Assumptions C02_model_answers_do_not_depend_on_history.
+(* ... and the PointSequence entry does exactly that: the verdict at position n is the standalone verdict of step n on its own observed answer *)
+Theorem C02_sequence_steps_judged_standalone : forall oracle steps outs vs, c02_steps oracle steps outs = Some vs ->
+  forall n s o, nth_error steps n = Some s -> nth_error outs n = Some o -> nth_error vs n = Some (c02_step oracle s o).
+Proof. exact c02_steps_stepwise. Qed.
+Print Assumptions C02_sequence_steps_judged_standalone.
+
 (* non-vacuity: a concrete valid ID at the last column / first row / negative f and a concrete (toy, decreasing) oracle satisfy every hypothesis,
    and the model's outputs pass the checkers *)
 Definition toy_sinh (x : float) : float := x.
@@ -221,3 +235,11 @@ Example C02_nonvacuous_antimeridian :
   check_shared 3 (vertices_of toy_sinh toy_atan (mk 2 3 1 0 0)) (vertices_of toy_sinh toy_atan (mk 2 0 1 0 0)) = true /\
   check_shared 3 (vertices_of toy_sinh toy_atan (mk 0 0 0 0 (-1))) (vertices_of toy_sinh toy_atan (mk 0 0 0 0 (-1))) = true.
 Proof. split; vm_compute; reflexivity. Qed.
+(* a history with a refused call in the middle: the same query gets the same answer before and after it *)
+Example C02_nonvacuous_history :
+  let q := QueryEid "3/7/0/4/-16" 0 in
+  match run_history toy_sinh toy_atan [q; QueryEid "3/7/0/x/-16" 0; QueryEid "3/7/0/4/-16" 1; q] with
+  | [Ok a; Err; Ok [c]; Ok b] => List.length a = 8%nat /\ a = b
+  | _ => False
+  end.
+Proof. vm_compute. split; reflexivity. Qed.
